@@ -114,10 +114,22 @@ pub fn build_header(h: &HdrSpec, function: u8, budget: usize) -> Vec<u8> {
             }
         }
         0x5B => {
-            o.push((h.a & 0xFF) as u8);
-            let len = (h.b % 64) as usize;
-            o.extend_from_slice(&(len as u16).to_le_bytes());
-            o.extend(data(len, 1));
+            // free format (group 70): a body of 16-bit fields drawn from boundary values (offsets, sizes, block numbers
+            // of the file objects) followed by a few octets of text; the declared length is mostly the real one
+            o.push(if h.seed % 11 == 0 { (h.a & 0xFF) as u8 } else { 1 });
+            let fields = [0u16, 1, 2, 8, 12, 16, 20, 26, 0x00FF, 0x0100, 0x7FFF, 0x8000, 0xFFF0, 0xFFF3, 0xFFF4, 0xFFF8, 0xFFFE, 0xFFFF];
+            let nf = 1 + (h.b as usize % 12);
+            let mut body = vec![];
+            let mut x = h.seed as usize;
+            for _ in 0..nf {
+                x = x.wrapping_mul(6364136223846793005usize).wrapping_add(1442695040888963407usize);
+                let v = if (x >> 20) % 4 == 0 { (x >> 32) as u16 } else { fields[(x >> 24) % fields.len()] };
+                body.extend_from_slice(&v.to_le_bytes());
+            }
+            body.extend(data((h.seed as usize >> 5) % 9, 1));
+            let declared = if h.seed % 13 == 0 { h.a } else { body.len() as u16 };
+            o.extend_from_slice(&declared.to_le_bytes());
+            o.extend(body);
         }
         _ => {
             o.extend(data((h.a % 8) as usize, 1));
@@ -182,6 +194,14 @@ pub fn known_gv() -> Vec<(u8, u8)> {
     for var in [0u8, 1, 196, 211, 240, 252, 254, 255] {
         v.push((0, var));
     }
+    // free-format file objects and device attributes have parsers of their own: sample them more often
+    for _ in 0..3 {
+        for var in 2..=8u8 {
+            v.push((70, var));
+        }
+        v.push((0, 254));
+        v.push((0, 255));
+    }
     v
 }
 
@@ -202,13 +222,20 @@ pub fn header_strategy() -> impl Strategy<Value = HdrSpec> {
         1 => any::<u16>(),
     ];
     (gv_s, q, num.clone(), num, any::<u32>()).prop_map(|((g, v), q, a, b, seed)| {
+        // group 70 lives on the free-format qualifier, device attributes on single-index ranges
+        let q = if g == 70 && seed % 4 != 0 { 0x5B } else if g == 0 && seed % 3 != 0 { (seed % 2) as u8 } else { q };
         // ranges mostly well ordered and short, sometimes at the very end of the index space
-        let (a, b) = match seed % 8 {
+        let (a, b) = if g == 0 && seed % 5 != 0 {
+            (a % 3, a % 3)
+        } else {
+            (a, b)
+        };
+        let (a, b) = if g == 0 && seed % 5 != 0 { (a, b) } else { match seed % 8 {
             0 | 1 | 2 | 3 => (a.min(b), a.min(b).saturating_add(seed as u16 % 6)),
             4 => (65535 - (seed as u16 % 4), 65535),
             5 => (255 - (seed as u16 % 4), 255),
             _ => (a, b),
-        };
+        } };
         HdrSpec { g, v, q, a, b, seed }
     })
 }
